@@ -78,8 +78,8 @@ func (f *Formatter) formatStatement(stmt ast.Statement) *Line {
 		line.Buffer += f.formatIfStatement(t)
 		switch {
 		case t.Alternative != nil:
-			// When "else" statement exists, trailing comment will be on it
-			trailingNode = t.Alternative
+			// When "else" statement exists, trailing comment will be on its block
+			trailingNode = t.Alternative.Consequence
 		case len(t.Another) > 0:
 			// When one of "else if" statement exists, trailing comment will be on its block
 			trailingNode = t.Another[len(t.Another)-1].Consequence
@@ -323,7 +323,7 @@ func (f *Formatter) formatIfStatement(stmt *ast.IfStatement) string {
 			buf.WriteString(v + " ")
 		}
 		buf.WriteString(f.formatBlockStatement(stmt.Alternative.Consequence))
-		buf.WriteString(f.trailing(stmt.Alternative.Consequence.Trailing))
+		// its trailing comment is printed by formatStatement() as the one of the whole statement
 	}
 
 	return buf.String()
